@@ -33,14 +33,20 @@ def toFlux (g : FUnit) (H C : Rat) (s : USpec) : Option USpec :=
            value := List.zipWith (fun v w => fluxTo f g (v / km) (w * km) H C / back) s.value s.wave,
            wu := s.wu, vu := some g }
 
-/-- `planck_radiance` (`two_or_2pi = 2`) / `planck_exitance` (`two_or_2pi = 2π`) with `exp` an uninterpreted function;
-`wave` in unit `wu`, result in `vu` per `wu` -/
-def planck {K : Type} [NatCast K] [Mul K] [Div K] [Add K] [Sub K] (expf : K → K) (pref : K) (H C kB : K)
-    (wave temp : K) (wu : WUnit) (vu : FUnit) : K :=
-  let wm := wave * waveTo wu .m
-  let flux := pref * H * (C * C) / ((wm * wm * wm * wm * wm) * (expf (H * C / (wm * kB * temp)) - ((1 : Nat) : K)))
-  match vu with
-  | .wlam => flux / waveTo .m wu
-  | v => fluxTo .wlam v flux wm H C / waveTo .m wu
+/-- `Spectrum.to(*units)`: the arguments are applied left to right; a wavelength-unit name rescales (`toWave`), a flux-unit
+name converts the values (`toFlux`, TypeError on a unitless spectrum), anything else is a ValueError; the first refusal
+stops the call and the spectrum stays as the arguments before it left it. Names are the canonical ones
+(`WUnit.ofName?`/`FUnit.ofName?` of the generated tables — `Spectrum.to` does not accept the long aliases). -/
+def applyTo (H C : Rat) : USpec → List String → USpec × Option String
+  | s, [] => (s, none)
+  | s, u :: rest =>
+    match WUnit.ofName? u with
+    | some w => applyTo H C (toWave w s) rest
+    | none =>
+      match FUnit.ofName? u with
+      | some f => match toFlux f H C s with
+        | some s' => applyTo H C s' rest
+        | none => (s, some "TypeError")
+      | none => (s, some "ValueError")
 
 end Lentil.Units
